@@ -66,14 +66,29 @@ impl Gate {
         }
     }
 
-    pub fn drain(&self) {
+    /// let the collector run every task that was enqueued; -> number of enqueued tasks that never
+    /// reached the collector (0 unless the queue loses tasks)
+    pub fn drain(&self) -> u64 {
         let mut st = self.m.lock().unwrap();
         let target = st.enq;
         st.permits += st.enq - st.done;
         self.cv.notify_all();
+        let mut last = st.done;
         while st.done < target {
-            st = self.cv.wait(st).unwrap();
+            let (g, to) = self.cv.wait_timeout(st, std::time::Duration::from_secs(3)).unwrap();
+            st = g;
+            if to.timed_out() {
+                if st.done == last {
+                    // no task finished for 3 s although permits are available: the tasks are not in the queue
+                    let lost = target - st.done;
+                    st.permits = 0;
+                    st.enq = st.done;
+                    return lost;
+                }
+                last = st.done;
+            }
         }
+        0
     }
 }
 
@@ -319,8 +334,12 @@ pub fn main(args: &[String]) -> i32 {
             }
             "drain" => {
                 writeln!(trace, "PRE drain").unwrap();
-                gate.drain();
-                ("drain".into(), "= done".into())
+                let lost = gate.drain();
+                if lost == 0 {
+                    ("drain".into(), "= done".into())
+                } else {
+                    ("drain".into(), format!("= {} collector tasks were enqueued but never reached the collector", lost))
+                }
             }
             "reopen" => {
                 writeln!(trace, "OP reopen\n= done").unwrap();
